@@ -20,9 +20,9 @@ meta = {
     'needs_to_manifest': needs,
     'confirmed': {
         'demo_clean_exit': 0, 'demo_patched_exit': 'non-zero', 'baseline_tests_with_patch': '87 passed',
-        'how': f'tools/eval_seed.sh {name}: demo run in a fresh scratch worktree without and with the '
-               'patch, pinned test suite with the patch, then `git -C /repo apply`, all 17 quick '
-               'checks, `git -C /repo checkout -- .`'},
+        'how': f'tools/eval_seed_wt.sh {name}: demo run in a fresh scratch worktree without and with the '
+               'patch, pinned test suite with the patch, all 18 quick checks against the patched worktree; then '
+               '`git -C /repo apply`, the quick check of the property, `git -C /repo checkout -- .`'},
     'detected_by': caught,
     'source': 'fresh sub-agent given only the property text and its own worktree',
 }
